@@ -207,7 +207,11 @@ func runDeployment(run *rep.Run, d deployment, provs []provider, oc map[string]b
 			for _, b := range backs {
 				b.ResetRecords()
 			}
-			req, _ := http.NewRequest(method, w.Base+"/olla/"+p.Prefix+path+"?n="+nonce, bytes.NewReader(body))
+			var rdr io.Reader = bytes.NewReader(body)
+			if (id+pi+qi)%3 == 0 {
+				rdr = client.ChunkedReader{R: bytes.NewReader(body)} // upload without a declared length
+			}
+			req, _ := http.NewRequest(method, w.Base+"/olla/"+p.Prefix+path+"?n="+nonce, rdr)
 			req.Header.Set("Content-Type", "application/json")
 			res := client.Do(hc, req)
 			run.Eval(depKey + "/" + p.Prefix + path)
